@@ -9,35 +9,46 @@ import re
 HERE = os.path.dirname(os.path.abspath(__file__))
 LEAN = os.path.join(os.path.dirname(HERE), "lean")
 GEN = ["translator_no_fallback", "gen_next_atom_state_eq", "gen_next_branch_state_eq", "gen_next_ring_state_eq"]
+# tie (a): code regenerated from the source on every run and proved equal to the hand model (Proofs/GenEq*.lean)
+GENMODS = {
+    "GenEq": GEN,
+    "GenEq2": ["translator_no_fallback_index", "gen_get_index_from_selfies_eq", "gen_get_selfies_from_index_eq",
+               "gen_get_selfies_from_index_terminates", "gen_index_roundtrip"],
+    "GenEq3": ["translator_no_fallback_capacity", "gen_get_bonding_capacity_eq", "gen_Atom_bonding_capacity_eq",
+               "gen_Atom_bonding_capacity_eq_raw", "gen_get_bonding_capacity_error"],
+    "GenEq4": ["translator_no_fallback_read_index", "gen_read_index_from_selfies_eq"],
+}
 
 STATIC = {
-    "C01": {"use_props": ["C01w", "C01r"], "extra_modules": ["SelfiesVerif.Proofs.GenEq"], "extra_theorems": GEN,
+    "C01": {"use_props": ["C01w", "C01r"], "gen": ["GenEq", "GenEq3"],
             "not_proved": ["C01_ring_labels_legal (labels always in 1..99) is FALSE on the unchanged tree (finding F1: > 99 ring bonds); proved: C01w_labels_legal_partial (<= 99 ring bonds) and the structural overflow lemma C01w_label_overflow",
                            "C01r_reader_recovers (the library's own SMILES parser reads the output back as exactly the graph the decoder built) needs: <= 99 ring bonds and no ring bond joining two '.'-fragments (selfies' parser keeps ring labels per fragment: C01r_cross_fragment_ring_rejected; such output is legal SMILES and is judged by the independent reader of the harness)",
-                           "external sanitizer clause: validated with RDKit, cannot be a theorem"]},
-    "C02": {"use_props": ["C16"], "extra_modules": ["SelfiesVerif.Proofs.GenEq", "SelfiesVerif.Spec.DerivationExamples"], "extra_theorems": GEN,
+                           "external sanitizer clause: validated with RDKit, cannot be a theorem",
+                           "'decoder returns' fails for nesting deeper than the recursion budget (residual finding F2r): the C01 theorems speak about every RETURNED result"]},
+    "C02": {"use_props": ["C16"], "gen": ["GenEq", "GenEq2", "GenEq4"], "extra_modules": ["SelfiesVerif.Spec.DerivationExamples"],
             "not_proved": ["C02_decoder_eq at the SMILES-string level (no spec writer); the graph-level refinement C02_graph_eq_general is proved for every result other than RecursionError (finding F2)"]},
-    "C03": {"use_props": ["C03p", "C01w"], "not_proved": ["C03p_roundtrip_strings is the string-level statement (hypotheses left: every ring span / branch length < 16^3, nesting depth < recursion budget, input length <= 10^4300); the last step from the decoded graph to the output SMILES string is C01w (writer = pre-order of the forest, atoms in index order) and is not composed with it into one theorem about the output string",
-                                                   "aromatic inputs: kekulization is covered by C05 (sound given a perfect matching), not composed here"]},
+    "C03": {"use_props": ["C03p", "C01w", "C03s", "C05e"], "not_proved": ["C03s_roundtrip_parsed / C03s_bonds_iff (Props/C03s.lean) state the round trip on the OUTPUT STRING: the library's parser reads decoder(encoder(s)) back with the same atoms and the same bonds as the prepared graph of s; hypotheses left: every ring span / branch length < 16^3, nesting depth < recursion budget, input length <= 10^4300, <= 99 ring bonds",
+                                                   "aromatic inputs: C05e_aromatic_end_to_end composes parser, kekulization and round trip; 'the matching returned is perfect' is derived on bipartite delocalisation subgraphs and an explicit hypothesis otherwise (finding F9)"]},
     "C04": {"use_props": ["C03", "C10r"], "not_proved": ["C04_end_to_end (Props/C10r.lean) is the string-level statement; hypotheses as C03p_roundtrip_strings plus <= 99 rings"]},
-    "C05": {"use_props": ["C05c", "C03p"], "not_proved": ["completeness is proved for BIPARTITE delocalisation subgraphs (all rings even: C05_bipartite_complete, C05_bipartite_decides, C05_kekulize_complete_bipartite); for non-bipartite systems it is false in general (finding F9) and decided by bounded search, as is atom-order independence",
+    "C05": {"use_props": ["C05c", "C03p", "C05e"], "not_proved": ["completeness is proved for BIPARTITE delocalisation subgraphs (all rings even: C05_bipartite_complete, C05_bipartite_decides, C05_kekulize_complete_bipartite); for non-bipartite systems it is false in general (finding F9) and decided by bounded search, as is atom-order independence",
                            "unconditional soundness of find_perfect_matching is FALSE (C05_soundness_false, finding F9); proved: sound on bipartite graphs, sound whenever every augmenting path found is simple, kekulize sound given a perfect matching",
                            ]},
-    "C06": {}, "C07": {"use_props": ["C01", "C08"],
-                       "not_proved": ["C07_atom_symbols_valid holds only for keys whose charge has at most 4300 digits (finding F10; proved exact: C07_atom_symbol_accepted_iff)"]},
-    "C08": {"use_props": ["C18"], "not_proved": ["full-strength C08 (DecoderError only) is FALSE: RecursionError on deep nesting (finding F2); proved: C08_total_partial (ok / DecoderError / RecursionError only, every other failure branch unreachable, fuel suffices) and C08_no_recursion_error_if_shallow",
-                                                  "the recursion threshold of the model (limit - 40) is approximate for the real interpreter"]},
-    "C09": {"use_props": ["C06"], "not_proved": ["full-strength C09 (EncoderError only) is FALSE: RecursionError on deep nesting (finding F2, C09_recursionError_witness); proved: C09_total_partial (ok / EncoderError / RecursionError only, for every str, flags and every legal choice tape; every other failure branch unreachable, all loops terminate, also downstream of a non-matching: the F9 analysis) and C09_no_recursion_error_if_shallow",
-                                                  "the choice tape must be legal (TapeOK: each entry is a member of the set it is popped from); the real set.pop() always is"]},
-    "C10": {"use_props": ["C10r", "C16", "C03p", "C14e"], "not_proved": ["C10_reencode_stable is proved under: ring spans / branch lengths < 16^3, nesting depth < recursion budget, input length <= 10^4300, <= 99 ring bonds",
+    "C06": {"gen": ["GenEq3"]}, "C07": {"use_props": ["C01", "C08"], "gen": ["GenEq3"],
+                       "not_proved": ["C07_no_error: a string over the alphabet nested deeper than the recursion budget is rejected (residual finding F2r; C08_deep_nesting_rejected); proved without exception below the budget: C07_no_error_shallow",
+                                      "C07_atom_symbols_valid holds only for keys whose charge has at most 4300 digits (finding F10; proved exact: C07_atom_symbol_accepted_iff)"]},
+    "C08": {"use_props": ["C18", "C08t"], "not_proved": ["C08_total (Props/C08t.lean) is the full-strength statement for the API function as repaired (F2: try/except RecursionError -> DecoderError, model Model/Api.lean decoderApi); the recursion threshold of the model (limit - 40) is approximate for the real interpreter, the band near it is not compared"]},
+    "C09": {"use_props": ["C06", "C08t"], "not_proved": ["C09_total (Props/C08t.lean) is the full-strength statement for the repaired API function (encoderApi); it needs a legal choice tape (TapeOK: each entry is a member of the set it is popped from); the real set.pop() always is"]},
+    "C10": {"use_props": ["C10r", "C16", "C03p", "C14e"], "gen": ["GenEq2"], "not_proved": ["C10_reencode_stable is proved under: ring spans / branch lengths < 16^3, nesting depth < recursion budget, input length <= 10^4300, <= 99 ring bonds",
                                                   "C10_atom_symbol_accepted needs token length <= 10^4300 (C10_atom_symbol_length_bound_needed)"]},
-    "C11": {"use_props": ["C12", "C19"], "not_proved": ["the decoder/encoder models take the table as a parameter; that the real translators read the table only through get_bonding_capacity is tied by the history correspondence and the fresh-interpreter oracle",
+    "C11": {"use_props": ["C12", "C19", "C11t"], "gen": ["GenEq3"],
+            "not_proved": ["C11t_translators_pure / C11t_history_independent (Props/C11t.lean): after any history the translators, reading capacities through the cache, return what they return for the current table; that the REAL translators reach the table only through get_bonding_capacity / Atom.bonding_capacity (translated from the source and proved equal to the model: GenEq3) is tied by the history correspondence and the fresh-interpreter oracle",
                                                          "cross-process determinism: observation only"]},
     "C12": {"not_proved": ["full privacy of the returned alphabet is FALSE on the unchanged tree (finding F7); C12_refines_value_map_partial excludes histories that mutate a returned alphabet"]},
     "C13": {}, "C14": {"use_props": ["C14e"]},
-    "C15": {}, "C16": {"extra_modules": ["SelfiesVerif.Proofs.GenEq"], "extra_theorems": GEN},
-    "C17": {"not_proved": ["'exactly the enclosing branch symbols' (C17_atom_attribution_partial proves: branch symbols at earlier, increasing positions, pushed by the enclosing calls) and 'exactly once' per atom",
-                           "with compatible=True the reported token is the MODERNISED symbol, not the input symbol (C17_input_index_compat; negation example in Props/C17.lean, replayed on the real code)"]},
+    "C15": {}, "C16": {"gen": ["GenEq", "GenEq2", "GenEq4"]},
+    "C17": {"use_props": ["C17x"],
+            "not_proved": ["with compatible=True the reported token is the MODERNISED symbol, not the input symbol (C17_input_index_compat; negation example in Props/C17.lean, replayed on the real code)",
+                           "C17_atom_attribution_exact / C17_made_once (Props/C17x.lean) state 'exactly the enclosing branch symbols' and 'exactly once' with Encloses defined on an attribution-free walk of the derivation (tied to Spec.derive by C17_walk_is_spec_derive); not proved: that the sym of a span enclosing NO atom is a branch symbol by Spec.classify (for spans on some atom's stack C17_atom_attribution_partial gives it)"]},
     "C18": {},
     "C19": {"not_proved": ["that every cross-call interaction of the real code goes through the modelled memo tables is an inventory re-derived from the source on every run, not a theorem",
                            "atomicity of CPython container operations is assumed"]},
@@ -45,13 +56,29 @@ STATIC = {
 
 
 def theorems(mod):
+    """theorem names of a module, qualified by the namespaces (other than SV) they are declared in"""
     path = os.path.join(LEAN, mod.replace(".", "/") + ".lean")
     if not os.path.exists(path):
         return []
     with open(path, encoding="utf-8") as f:
         s = f.read()
     s = re.sub(r"/-.*?-/", "", s, flags=re.S)
-    return re.findall(r"^theorem\s+([A-Za-z0-9_'.]+)", s, flags=re.M)
+    out, stack = [], []
+    for line in s.split("\n"):
+        m = re.match(r"^namespace\s+([A-Za-z0-9_'.]+)", line)
+        if m:
+            stack.append(m.group(1))
+            continue
+        m = re.match(r"^end\s+([A-Za-z0-9_'.]+)\s*$", line)
+        if m and stack and stack[-1] == m.group(1):
+            stack.pop()
+            continue
+        m = re.match(r"^(?:protected\s+|private\s+)?theorem\s+([A-Za-z0-9_'.?!]+)", line)
+        if m:
+            ns = [x for x in stack if x != "SV"]
+            ns = [x[3:] if x.startswith("SV.") else x for x in ns]
+            out.append(".".join(ns + [m.group(1)]))
+    return out
 
 
 def main():
@@ -68,10 +95,12 @@ def main():
                 mods.append(m)
                 per_module[m] = theorems(m)
                 thms += per_module[m]
+        for g in st.get("gen", []):
+            m = "SelfiesVerif.Proofs." + g
+            mods.append(m)
+            per_module[m] = list(GENMODS[g])
+            thms += GENMODS[g]
         mods += st.get("extra_modules", [])
-        thms += st.get("extra_theorems", [])
-        if st.get("extra_theorems"):
-            per_module["SelfiesVerif.Proofs.GenEq"] = st["extra_theorems"]
         has_own = os.path.exists(os.path.join(LEAN, own.replace(".", "/") + ".lean"))
         e = {"modules": mods, "theorems": thms, "per_module": per_module, "not_proved": st.get("not_proved", []),
              "own_theorems": len(theorems(own)) if has_own else 0}
